@@ -26,7 +26,16 @@ import copy
 
 from ..model import AnalysisError, FuncInfo, unparse
 
+try:  # every identifier the rules know by name: a function named otherwise cannot be an anchor and may be executed in place
+    from ..normalize import rule_named_identifiers
+except ImportError:  # pragma: no cover
+    def rule_named_identifiers():
+        return None
+
 RAISED = object()
+# signals that leave every enclosing loop of the frame (xbreak / xreturn: break / return of a loop body that runs at a yield of
+# the generator function being executed in place of the loop's iterable)
+_LEAVES = ("return", "raise", "xbreak", "xreturn")
 MUTATORS = {"append", "extend", "insert", "update", "pop", "popitem", "clear", "setdefault", "remove", "add", "discard", "sort", "reverse",
             "__setitem__", "__delitem__"}
 PURE_BUILTINS = {"isinstance", "issubclass", "getattr", "hasattr", "type", "len", "id", "str", "repr", "bool", "callable", "list", "tuple",
@@ -186,10 +195,11 @@ class _State:
 
 
 class _Frame:
-    __slots__ = ("fn", "fid", "stack", "mutated")
+    __slots__ = ("fn", "fid", "stack", "mutated", "gen")
 
-    def __init__(self, fn, fid, stack):
+    def __init__(self, fn, fid, stack, gen=None):
         self.fn, self.fid, self.stack = fn, fid, stack
+        self.gen = gen  # (for statement, frame of the loop) when this frame runs a generator function the loop iterates
         self.mutated = mutated_names(fn.node)
 
 
@@ -222,6 +232,14 @@ class Sym:
         if a.kwarg:
             env[a.kwarg.arg] = ast.Name(id=a.kwarg.arg, ctx=ast.Load())
         st.envs[0] = env
+        self._ptypes = {}
+        if self.fn.cls is not None and self.fn.kind not in ("staticmethod", "classmethod") and self.fn.self_name:
+            self._ptypes[self.fn.self_name] = self.fn.cls
+        for x in a.posonlyargs + a.args + a.kwonlyargs:
+            if x.annotation is not None and x.arg not in self._ptypes:
+                k = self._ann_class(x.annotation)
+                if k is not None:
+                    self._ptypes[x.arg] = k
         out = []
         for s, sig, val in self._block(self._body(self.fn), st, fr):
             self._paths += 1
@@ -375,8 +393,9 @@ class Sym:
             for s1, v in self._ev(e.value, st, fr):
                 if v is RAISED:
                     yield s1, RAISED
-                else:
-                    yield s1, ast.copy_location(ast.Attribute(value=v, attr=e.attr, ctx=ast.Load()), e)
+                    continue
+                fld = self._record_field(v, e.attr) if isinstance(v, ast.Call) else None
+                yield s1, (fld if fld is not None else ast.copy_location(ast.Attribute(value=v, attr=e.attr, ctx=ast.Load()), e))
             return
         if isinstance(e, ast.NamedExpr):
             for s1, v in self._ev(e.value, st, fr):
@@ -434,14 +453,106 @@ class Sym:
             yield s1, new
 
     # ------------------------------------------------------------------ calls
-    def _callee(self, call, fr):
+    @staticmethod
+    def _expandable_name(name) -> bool:
+        """Private helpers always; public functions only when no rule knows them by name (a helper a refactoring introduced)."""
+        if not name or name.startswith("__"):
+            return False
+        if name.startswith("_"):
+            return True
+        known = rule_named_identifiers()
+        return known is not None and name not in known
+
+    def _ann_class(self, ann):
+        """Class named by an annotation (`K`, `mod.K`, `K | None`, `Optional[K]`, "K"), when it is one class of the package."""
+        if isinstance(ann, ast.Constant) and isinstance(ann.value, str):
+            try:
+                ann = ast.parse(ann.value, mode="eval").body
+            except SyntaxError:
+                return None
+        if isinstance(ann, ast.BinOp) and isinstance(ann.op, ast.BitOr):
+            sides = [x for x in (ann.left, ann.right) if not (isinstance(x, ast.Constant) and x.value is None)]
+            return self._ann_class(sides[0]) if len(sides) == 1 else None
+        if isinstance(ann, ast.Subscript) and unparse(ann.value).endswith("Optional"):
+            return self._ann_class(ann.slice)
+        name = ann.id if isinstance(ann, ast.Name) else ann.attr if isinstance(ann, ast.Attribute) else None
+        cands = self.p.by_name.get(name, []) if name else []
+        return cands[0] if len(cands) == 1 else None
+
+    def _attr_class(self, owner, attr):
+        """Class of `x.attr`: from the annotation of the property / class attribute of x's class when that is known, else when
+        every class of the package that defines a property of that name annotates it with the same class."""
+        def of(ci):
+            m = ci.lookup(attr)
+            if m and m[1] == "prop" and m[2].getter is not None:
+                return self._ann_class(m[2].getter.node.returns) if m[2].getter.node.returns is not None else None
+            if m and m[1] == "assign" and attr in m[0].class_assigns and m[0].class_assigns[attr][1] is not None:
+                return self._ann_class(m[0].class_assigns[attr][1])
+            return None
+
+        if owner is not None:
+            return of(owner)
+        got = {id(c): c for c in (of(ci) for ci in self.p.classes if ci.module is not None and ci.module.in_scope and attr in ci.props) if c is not None}
+        undecided = [ci for ci in self.p.classes if ci.module is not None and ci.module.in_scope and attr in ci.props and of(ci) is None]
+        return next(iter(got.values())) if len(got) == 1 and not undecided else None
+
+    def _class_of(self, e):
+        """Static class of a closed expression (written in terms of the analysed function's parameters), or None."""
+        if isinstance(e, ast.Name):
+            if e.id not in self._ptypes:
+                return None
+            return self._ptypes[e.id]
+        if isinstance(e, ast.Attribute):
+            return self._attr_class(self._class_of(e.value), e.attr)
+        if isinstance(e, ast.IfExp):
+            a, b = self._class_of(e.body), self._class_of(e.orelse)
+            return a if a is b else None
+        return None
+
+    def _checks(self, target, call, fr, gen=False):
+        if target is None or target in fr.stack or len(fr.stack) > self.depth:
+            return None
+        yields = [x for s in target.node.body for x in ast.walk(s) if isinstance(x, (ast.Yield, ast.YieldFrom))]
+        if gen:
+            # a generator function can be run in place of the loop that iterates it when every yield is a statement of its own
+            stmts = {id(x.value) for s in target.node.body for x in ast.walk(s) if isinstance(x, ast.Expr)}
+            if not yields or any(id(y) not in stmts for y in yields):
+                return None
+        elif yields:
+            return None
+        a = target.node.args
+        if a.vararg or a.kwarg or any(isinstance(x, ast.Starred) for x in call.args) or any(k.arg is None for k in call.keywords):
+            return None
+        for d in target.node.decorator_list:
+            if unparse(d) not in ("staticmethod", "classmethod"):
+                return None
+        if any(isinstance(x, (ast.Global, ast.Nonlocal, ast.FunctionDef, ast.AsyncFunctionDef, ast.ClassDef)) for s in target.node.body for x in ast.walk(s)):
+            return None
+        return target
+
+    def _callee_on(self, call, recv, fr, gen=False):
+        """Method called on an object whose class is known from annotations (`parent.workspace.m(..)`, `alias.m(..)`)."""
+        name = call.func.attr
+        if not self._expandable_name(name):
+            return None
+        K = self._class_of(recv)
+        if K is None:
+            return None
+        m = K.lookup(name)
+        if not (m and m[1] == "method") or m[2].kind not in ("method",):
+            return None
+        if any(sub.own(name) is not None for sub in self.p.subclasses(K, strict=True)):
+            return None  # dynamic dispatch
+        return self._checks(m[2], call, fr, gen)
+
+    def _callee(self, call, fr, st, gen=False):
         f = call.func
         name = f.attr if isinstance(f, ast.Attribute) else getattr(f, "id", None)
-        if not name or not name.startswith("_") or name.startswith("__"):
+        if not self._expandable_name(name):
             return None
         fn = fr.fn
         target = None
-        if isinstance(f, ast.Attribute) and isinstance(f.value, ast.Name):
+        if isinstance(f, ast.Attribute) and isinstance(f.value, ast.Name) and (f.value.id in ("self", "cls", fn.self_name or "") or f.value.id not in st.envs[fr.fid]):
             recv = f.value.id
             if fn.cls is not None and recv in ("self", "cls", fn.self_name or ""):
                 m = fn.cls.lookup(name)
@@ -456,24 +567,50 @@ class Sym:
                     m = r[1].lookup(name)
                     if m and m[1] == "method":
                         target = m[2]
-        elif isinstance(f, ast.Name):
+        elif isinstance(f, ast.Name) and name not in st.envs[fr.fid]:
             r = self.p.resolve_name(fn.module, name)
             if r and r[0] == "func":
                 target = r[1]
-        if target is None or target in fr.stack or len(fr.stack) > self.depth:
+        return self._checks(target, call, fr, gen)
+
+    # ------------------------------------------------------------------ record types (NamedTuple / dataclass)
+    def _record(self, call):
+        """(field names, defaults) when the closed call constructs a NamedTuple / dataclass of the package."""
+        f = call.func
+        name = f.id if isinstance(f, ast.Name) else f.attr if isinstance(f, ast.Attribute) else None
+        cache = self.__dict__.setdefault("_records", {})
+        if name not in cache:
+            cache[name] = None
+            cands = self.p.by_name.get(name, []) if name else []
+            if len(cands) == 1 and cands[0].node is not None:
+                ci = cands[0]
+                def named(x, what):
+                    if unparse(x).split("(")[0].endswith(what):
+                        return True
+                    r = self.p.resolve_name(ci.module, x.id) if isinstance(x, ast.Name) and ci.module is not None else None
+                    return bool(r and r[0] == "external" and str(r[1]).endswith(what))
+
+                tup = any(named(b, "NamedTuple") for b in ci.node.bases)
+                rec = tup or any(named(d.func if isinstance(d, ast.Call) else d, "dataclass") for d in ci.node.decorator_list)
+                if rec and "__init__" not in ci.methods and "__new__" not in ci.methods and "__post_init__" not in ci.methods:
+                    fields = [(x.target.id, x.value) for x in ci.node.body if isinstance(x, ast.AnnAssign) and isinstance(x.target, ast.Name)]
+                    cache[name] = ([n for n, _ in fields], dict(fields), tup)
+        return cache[name]
+
+    def _record_field(self, call, attr):
+        rec = self._record(call)
+        if rec is None or attr not in rec[0] or any(isinstance(a, ast.Starred) for a in call.args) or any(k.arg is None for k in call.keywords):
             return None
-        a = target.node.args
-        if a.vararg or a.kwarg or any(isinstance(x, ast.Starred) for x in call.args) or any(k.arg is None for k in call.keywords):
-            return None
-        for d in target.node.decorator_list:
-            if unparse(d) not in ("staticmethod", "classmethod"):
-                return None
-        if any(isinstance(x, (ast.Yield, ast.YieldFrom, ast.Global, ast.Nonlocal, ast.FunctionDef, ast.AsyncFunctionDef, ast.ClassDef)) for s in target.node.body for x in ast.walk(s)):
-            return None
-        return target
+        i = rec[0].index(attr)
+        if i < len(call.args):
+            return call.args[i]
+        for k in call.keywords:
+            if k.arg == attr:
+                return k.value
+        return copy.deepcopy(rec[1][attr]) if rec[1].get(attr) is not None and _const_literal(rec[1][attr]) else None
 
     def _call(self, e, st, fr):
-        callee = self._callee(e, fr)
+        callee = self._callee(e, fr, st)
         func_parts = [e.func.value] if isinstance(e.func, ast.Attribute) else [e.func]
         args = list(e.args)
         kws = list(e.keywords)
@@ -491,16 +628,29 @@ class Sym:
             if callee is not None:
                 yield from self._inline(e, callee, f0, cargs, ckws, s1, fr)
                 continue
+            if isinstance(e.func, ast.Attribute):
+                on = self._callee_on(e, f0, fr)
+                if on is not None:
+                    yield from self._inline(e, on, f0, cargs, ckws, s1, fr, bound=True)
+                    continue
+            elif isinstance(func, ast.Attribute):
+                # a bound method taken from a table / kept in a local: `handler = self._m; handler(x)`
+                on = self._callee_on(ast.Call(func=func, args=e.args, keywords=e.keywords), func.value, fr)
+                if on is not None:
+                    yield from self._inline(e, on, func.value, cargs, ckws, s1, fr, bound=True)
+                    continue
             # getattr(x, "const") is x.const
             if isinstance(func, ast.Name) and func.id == "getattr" and len(cargs) == 2 and not ckws and isinstance(cargs[1], ast.Constant) \
                     and isinstance(cargs[1].value, str) and cargs[1].value.isidentifier():
                 yield s1, ast.copy_location(ast.Attribute(value=cargs[0], attr=cargs[1].value, ctx=ast.Load()), e)
                 continue
             c = ast.copy_location(ast.Call(func=func, args=cargs, keywords=ckws), e)
-            s1.add("call", c, e)
+            if self._record(c) is None:  # building a plain record is not an event
+                s1.add("call", c, e)
             yield s1, c
 
-    def _inline(self, e, callee, recv, cargs, ckws, st, fr):
+    def _bind_call(self, e, callee, recv, cargs, ckws, fr, bound):
+        """parameter -> closed argument, or None when the call cannot be matched to the signature."""
         a = callee.node.args
         params = [x.arg for x in a.posonlyargs + a.args]
         defaults = dict(zip(params[len(params) - len(a.defaults):], a.defaults))
@@ -509,8 +659,8 @@ class Sym:
             if d is not None:
                 defaults[k.arg] = d
         vals = list(cargs)
-        if callee.kind in ("method", "classmethod") and isinstance(e.func, ast.Attribute):
-            recv_is_class = isinstance(e.func.value, ast.Name) and e.func.value.id not in ("self", "cls", fr.fn.self_name or "")
+        if callee.kind in ("method", "classmethod") and (bound or isinstance(e.func, ast.Attribute)):
+            recv_is_class = not bound and isinstance(e.func.value, ast.Name) and e.func.value.id not in ("self", "cls", fr.fn.self_name or "")
             if not (callee.kind == "method" and recv_is_class):
                 vals = [recv] + vals
         binding = dict(zip(params, vals))
@@ -518,15 +668,20 @@ class Sym:
             binding[k.arg] = k.value
         for prm in params:
             if prm not in binding:
-                if prm in defaults:
-                    binding[prm] = copy.deepcopy(defaults[prm])
-                else:
-                    # cannot bind: leave the call as it is
-                    func = ast.Attribute(value=recv, attr=e.func.attr, ctx=ast.Load()) if isinstance(e.func, ast.Attribute) else recv
-                    c = ast.copy_location(ast.Call(func=func, args=cargs, keywords=ckws), e)
-                    st.add("call", c, e)
-                    yield st, c
-                    return
+                if prm not in defaults:
+                    return None
+                binding[prm] = copy.deepcopy(defaults[prm])
+        return binding
+
+    def _inline(self, e, callee, recv, cargs, ckws, st, fr, bound=False):
+        binding = self._bind_call(e, callee, recv, cargs, ckws, fr, bound)
+        if binding is None:
+            # cannot bind: leave the call as it is
+            func = ast.Attribute(value=recv, attr=e.func.attr, ctx=ast.Load()) if isinstance(e.func, ast.Attribute) else recv
+            c = ast.copy_location(ast.Call(func=func, args=cargs, keywords=ckws), e)
+            st.add("call", c, e)
+            yield st, c
+            return
         st.nfid += 1
         nfr = _Frame(callee, st.nfid, fr.stack + (callee,))
         st.envs[nfr.fid] = binding
@@ -675,6 +830,10 @@ class Sym:
             self._bind(t.id, v, st, fr, node)
             yield st
         elif isinstance(t, (ast.Tuple, ast.List)):
+            if isinstance(v, ast.Call) and self._record(v) is not None and self._record(v)[2]:
+                flds = [self._record_field(v, n) for n in self._record(v)[0]]
+                if all(x is not None for x in flds):
+                    v = ast.Tuple(elts=flds, ctx=ast.Load())
             if isinstance(v, (ast.Tuple, ast.List)) and len(v.elts) == len(t.elts) and not any(isinstance(x, ast.Starred) for x in list(v.elts) + list(t.elts)):
                 def rec(i, s):
                     if i == len(t.elts):
@@ -805,6 +964,9 @@ class Sym:
                         s2.add("aug", ast.copy_location(tgt, t), s, value=v)
                         yield s2, None, None
             return
+        if isinstance(s, ast.Expr) and isinstance(s.value, (ast.Yield, ast.YieldFrom)) and fr.gen is not None:
+            yield from self._yield(s.value, st, fr)
+            return
         if isinstance(s, ast.Expr):
             for s1, v in self._ev(s.value, st, fr):
                 yield s1, ("raise" if v is RAISED else None), None
@@ -867,7 +1029,7 @@ class Sym:
                 else:
                     self._havoc(names, s1, fr, s)
                     for s2, sig, val in self._block(s.body, s1, fr):
-                        if sig in ("return", "raise"):
+                        if sig in _LEAVES:
                             yield s2, sig, val
                         else:
                             self._havoc(names, s2, fr, s)
@@ -893,7 +1055,88 @@ class Sym:
             raise AnalysisError(f"{self.fn.qualname}: match statement at line {s.lineno}: not modelled")
         yield st, None, None
 
+    def _gen_callee(self, it, st, fr):
+        if not isinstance(it, ast.Call) or fr.gen is not None:  # (one generator at a time)
+            return None, False
+        c = self._callee(it, fr, st, gen=True)
+        if c is not None:
+            return c, False
+        if isinstance(it.func, ast.Attribute):
+            c = self._callee_on(it, self._close_pure(it.func.value, st, fr), fr, gen=True)
+            return c, True
+        return None, False
+
+    def _for_generator(self, s, callee, bound, st, fr):
+        """`for t in gen(..): body` with gen a generator function of the package: gen's body runs in place, the loop body at each yield."""
+        e = s.iter
+        names = assigned_names(s.body) | assigned_names([ast.Expr(value=s.target)])
+        parts = ([e.func.value] if isinstance(e.func, ast.Attribute) else []) + list(e.args) + [k.value for k in e.keywords]
+        for s1, vs in self._seq(parts, st, fr):
+            if vs is RAISED:
+                yield s1, "raise", None
+                continue
+            recv = vs[0] if isinstance(e.func, ast.Attribute) else None
+            rest = vs[1:] if isinstance(e.func, ast.Attribute) else vs
+            cargs = rest[:len(e.args)]
+            ckws = [ast.keyword(arg=k.arg, value=v) for k, v in zip(e.keywords, rest[len(e.args):])]
+            binding = self._bind_call(e, callee, recv, cargs, ckws, fr, bound)
+            if binding is None:
+                raise AnalysisError(f"{self.fn.qualname}: call of generator {callee.qualname} at line {e.lineno} does not match its signature")
+            self._havoc(names, s1, fr, s)
+            s1.nfid += 1
+            nfr = _Frame(callee, s1.nfid, fr.stack + (callee,), gen=(s, fr))
+            s1.envs[nfr.fid] = binding
+            for s2, sig, val in self._block(self._body(callee), s1, nfr):
+                s2.envs.pop(nfr.fid, None)
+                if sig == "raise":
+                    yield s2, "raise", None
+                elif sig == "xreturn":
+                    yield s2, "return", val
+                else:
+                    self._havoc(names, s2, fr, s)
+                    if sig == "xbreak":
+                        yield s2, None, None
+                    else:
+                        yield from self._block(s.orelse, s2, fr)
+
+    def _yield(self, y, st, fr):
+        """A yield statement of a generator function run in place of a loop's iterable: the loop body runs here."""
+        loop, lfr = fr.gen
+        if isinstance(y, ast.YieldFrom):
+            for s1, v in self._ev(y.value, st, fr):
+                if v is RAISED:
+                    yield s1, "raise", None
+                    continue
+                elems = self._elements(v)
+                values = elems if elems is not None and len(elems) <= 6 else [None]
+                yield from self._yield_values(values, 0, loop, lfr, s1)
+            return
+        for s1, v in self._ev(y.value, st, fr):
+            if v is RAISED:
+                yield s1, "raise", None
+            else:
+                yield from self._yield_values([v if v is not None else ast.Constant(value=None)], 0, loop, lfr, s1)
+
+    def _yield_values(self, values, i, loop, lfr, st):
+        if i == len(values):
+            yield st, None, None
+            return
+        for s1 in self._assign_target(loop.target, values[i], st, lfr, loop):
+            for s2, sig, val in self._block(loop.body, s1, lfr):
+                if sig == "break":
+                    yield s2, "xbreak", None
+                elif sig == "return":
+                    yield s2, "xreturn", val
+                elif sig == "raise":
+                    yield s2, "raise", None
+                else:
+                    yield from self._yield_values(values, i + 1, loop, lfr, s2)
+
     def _for(self, s, st, fr):
+        callee, bound = self._gen_callee(s.iter, st, fr)
+        if callee is not None:
+            yield from self._for_generator(s, callee, bound, st, fr)
+            return
         names = assigned_names(s.body) | assigned_names([ast.Expr(value=s.target)])
         for s1, it in self._ev(s.iter, st, fr):
             if it is RAISED:
@@ -914,7 +1157,7 @@ class Sym:
                 if isinstance(x, ast.Name):
                     s1.envs[fr.fid][x.id] = ast.Name(id=self._objname(x.id, fr), ctx=ast.Load())
             for s2, sig, val in self._block(s.body, s1, fr):
-                if sig in ("return", "raise"):
+                if sig in _LEAVES:
                     yield s2, sig, val
                     continue
                 self._havoc(names, s2, fr, s)
@@ -947,7 +1190,7 @@ class Sym:
             return
         for s1 in self._assign_target(s.target, copy.deepcopy(elems[i]), st, fr, s):
             for s2, sig, val in self._block(s.body, s1, fr):
-                if sig in ("return", "raise"):
+                if sig in _LEAVES:
                     yield s2, sig, val
                 elif sig == "break":
                     yield s2, None, None
